@@ -462,6 +462,7 @@ class Interp:
             prog._dynamic_globals = self._find_dynamic_globals()
         self.dynamic_globals = prog._dynamic_globals
         self.rec_assume = {}  # qualname -> summary (None = bottom)
+        self.rec_inherited = frozenset()  # assumed although not on the stack
         self.rec_hits = set()
         self.rec_calls = []
         self.loop_stack = []
@@ -1073,7 +1074,11 @@ class Interp:
                 for po in self.pending[n0:]:
                     po.exc.chain = po.exc.chain + (fi.short,)
             return value
-        if any(f is fi for f, _ in self.stack):
+        if any(f is fi for f, _ in self.stack) or \
+                fi.qualname in self.rec_inherited:
+            # (rec_inherited: this interpreter computes a summary nested in
+            # the summary computation of fi -- mutual recursion through
+            # more than one cycle; fi is taken at the outer iterate)
             return self.recursive_call(fi, args, kwargs, state, node)
         caller_env = state.env
         depth = len(state.kn.atoms)
@@ -1113,7 +1118,8 @@ class Interp:
             summ = self.rec_assume[fi.qualname]
         else:
             from . import codec
-            summ = codec.rec_summary(self.prog, fi, self.policy)
+            summ = codec.rec_summary(self.prog, fi, self.policy,
+                                     outer=self.rec_assume)
         if summ is None:
             # bottom: no terminating recursive activation known yet
             state.kn.assume(False)
